@@ -251,6 +251,8 @@ pub fn run(cfg: &Config, stats: &mut Stats, run_seed: u64, cat: &crate::catalog:
         if case.fault_kind != "none" {
             stats.count(&format!("fault_fired.{}", case.fault_kind));
         }
+        stats.note(case_hash(&case));
+        stats.note(model::rng::fnv(ev.outcome.as_bytes()));
         if nontrivial {
             stats.distinct.insert(case_hash(&case));
         }
